@@ -96,80 +96,98 @@ def _compare(ctx) -> None:
             and len(rets[0].value.args) == 2 and short(rets[0].value.args[0]) == f.params[1] and short(rets[0].value.args[1]) == want
         ctx.ob("a.dispatch", f, "dispatch", ok, f"{name} -> _elementwise_compare(other, {want})", rets[0] if rets else f.node,
                message=f"Vector.{name} returns `{short(rets[0].value) if rets else '?'}`, expected self._elementwise_compare(other, {want})")
-    # kernels
+    # kernels: every Vector(...) result of the two comparison kernels, on the symx event log (closures / helpers in line)
+    from ..sites2 import all_sites2, comp_parts, leaves
+    from ..symx import NONE as SNONE
+    from ..symx import const, subterms
     for q in ("vector.Vector._elementwise_compare", "vector._Date._elementwise_compare"):
         f = prog.func(q)
-        op = f.params[2]
-        res = Resolver(prog, f)
-        for s in all_sites(prog):
-            if s.func is not f or s.kind != "Vector":
+        SELF = ("param", f.params[0])
+        op = ("param", f.params[2])
+        k = 0
+        for s in all_sites2(prog):
+            if s.top is not f or s.kind != "Vector":
                 continue
-            datas = res.resolve(s.data) if isinstance(s.data, ast.Name) else [s.data]
+            it = s.it
+            k += 1
             problems = []
-            dt = s.dtype
-            dts = res.resolve(dt) if isinstance(dt, ast.Name) else [dt]
-            for d in dts:
-                if d is None or isinstance(d, str) or short(d) not in ("DataType(bool, nullable=False)", "DataType(bool)"):
-                    problems.append(f"result dtype is `{short(d) if d is not None and not isinstance(d, str) else d}`, must be the "
-                                    f"constant non-nullable bool")
-            if s.name is not None and not (isinstance(s.name, ast.Constant) and s.name.value is None):
-                problems.append(f"comparison result is named `{short(s.name)}`")
-            for d in datas:
-                c = comp_of(d) if not isinstance(d, str) else None
-                if c is None or len(c.generators) != 1 or c.generators[0].ifs:
-                    problems.append(f"result data `{short(d, 50) if not isinstance(d, str) else d}` is not an unfiltered comprehension")
+            okdt = (("call", ("name", "DataType"), (("name", "bool"),), ()),
+                    ("call", ("name", "DataType"), (("name", "bool"),), (("nullable", ("const", "bool", False)),)))
+            for d in (leaves(s.dtype) or [None]):
+                if d not in okdt:
+                    problems.append(f"result dtype is `{s.sh(d, 40)}`, must be the constant non-nullable bool")
+            if s.name is not None and s.name != SNONE:
+                problems.append(f"comparison result is named `{s.sh(s.name, 40)}`")
+            for d in leaves(s.data):
+                cp = comp_parts(it, d)
+                if cp is None or len(cp[0]) != 1 or cp[1]:
+                    problems.append(f"result data `{s.sh(d, 50)}` is not an unfiltered comprehension")
                     continue
-                g = c.generators[0]
-                if isinstance(g.target, ast.Tuple):
-                    xs = [e.id for e in g.target.elts if isinstance(e, ast.Name)]
-                    it = g.iter
-                    if not (isinstance(it, ast.Call) and short(it.func) == "zip" and len(it.args) == 2
-                            and short(it.args[0]) == "self" and short(it.args[1]) == f.params[1]
-                            and kwarg(it, "strict") is not None and short(kwarg(it, "strict")) == "True"):
-                        problems.append(f"operands are paired by `{short(it, 50)}`, expected zip(self, {f.params[1]}, strict=True)")
+                (L,), _, v, ev = cp
+                lp = it.loops[L]
+                other_terms = [t for t in (("param", f.params[1]), ("call", ("attr", SELF, "_check_duplicate"), (("param", f.params[1]),), ()))]
+                if lp.domain is not None and lp.domain[0] == "tuple":
+                    doms = lp.domain[1]
+                    strict = lp.iter is not None and lp.iter[0] == "call" and lp.iter[1] == ("name", "zip") \
+                        and dict(lp.iter[3]).get("strict") == ("const", "bool", True)
+                    if not (len(doms) == 2 and doms[0] == SELF and doms[1] in other_terms and strict):
+                        problems.append(f"operands are paired by `{s.sh(lp.iter, 50)}`, expected zip(self, {f.params[1]}, strict=True)")
+                        continue
+                    xs = [("elem", doms[0], L), ("elem", doms[1], L)]
+                    second = xs[1]
                 else:
-                    xs = [g.target.id]
-                    if short(g.iter) not in ("self", "self._underlying"):
-                        problems.append(f"scalar comparison iterates `{short(g.iter)}`, not self")
-                # element
-                elt = c.elt
-                why = _kernel_elt_ok_date(elt, xs, op, f.params[1]) if q.startswith("vector._Date") else _kernel_elt_ok_generic(elt, xs, op, f.params[1])
+                    if lp.iter not in (SELF, ("attr", SELF, "_underlying")):
+                        problems.append(f"scalar comparison iterates `{s.sh(lp.iter, 40)}`, not self")
+                        continue
+                    xs = [("elem", lp.iter, L)]
+                    second = None
+                why = _kernel_elt_term(s, v, xs, op, second, other_terms, date_kernel=q.startswith("vector._Date"))
                 if why:
                     problems.append(why)
-            ctx.ob("a.compare-kernels", f, f"kernel:{s.call.lineno - f.lineno}", not problems,
-                   "non-nullable bool; False for None; bool(op(x, y)) in operand order", s.call, message="; ".join(problems))
+            ctx.ob("a.compare-kernels", f, f"kernel:{k}", not problems,
+                   "non-nullable bool; False for None; bool(op(x, y)) in operand order", s.node, message="; ".join(problems))
 
 
-def _kernel_elt_ok_generic(elt, xs, op, other) -> Optional[str]:
-    if not isinstance(elt, ast.IfExp):
-        return f"element `{short(elt, 60)}` has no None guard (a None element must compare False)"
-    why = _kernel_elt_ok(elt, xs, op)
-    if why:
-        return why
-    c = elt.orelse.args[0]
-    args = [short(a) for a in c.args]
-    want = xs if len(xs) == 2 else [xs[0], other]
-    if args != want:
-        return f"operands are passed as {op}({', '.join(args)}), expected {op}({', '.join(want)}) (written operand order)"
-    return None
-
-
-def _kernel_elt_ok_date(elt, xs, op, other) -> Optional[str]:
-    if not isinstance(elt, ast.IfExp):
-        return f"element `{short(elt, 60)}` has no None guard (a None element must compare False)"
-    why = _kernel_elt_ok(elt, xs, op)
-    if why:
-        return why
-    c = elt.orelse.args[0]
-    # first operand derives from x (possibly promoted to datetime), second from y / other (possibly parsed)
-    a0, a1 = c.args
-    n0 = {n.id for n in ast.walk(a0) if isinstance(n, ast.Name)}
-    n1 = {n.id for n in ast.walk(a1) if isinstance(n, ast.Name)}
-    second = xs[1] if len(xs) == 2 else other
-    if xs[0] not in n0 or second in n0:
-        return f"the left operand `{short(a0, 40)}` is not derived from self's element"
-    if second not in n1 or xs[0] in n1:
-        return f"the right operand `{short(a1, 40)}` is not derived from the other operand"
+def _kernel_elt_term(s, v, xs, op, second, other_terms, date_kernel: bool) -> Optional[str]:
+    """`False if (x is None or y is None) else bool(op(x', y'))`  (x', y' = the operands in written order; for the date kernel
+    each may be converted, but must derive from its own side only)."""
+    from ..symx import NONE as SNONE
+    from ..symx import subterms
+    if v[0] != "ifexp":
+        return f"element `{s.sh(v, 60)}` has no None guard (a None element must compare False)"
+    test, a, b = v[1], v[2], v[3]
+    if a != ("const", "bool", False):
+        return f"a None operand yields `{s.sh(a, 30)}`, not False"
+    parts = list(test[2]) if (test[0] == "bool" and test[1] == "or") else [test]
+    guarded = []
+    for p in parts:
+        if p[0] == "cmp" and p[1] == "Is" and p[3] == SNONE:
+            guarded.append(p[2])
+        else:
+            return f"None guard `{s.sh(test, 60)}` is not a disjunction of `<operand> is None` tests"
+    if sorted(map(repr, guarded)) != sorted(map(repr, xs)):
+        return f"None guard covers {[s.sh(g, 20) for g in guarded]}, the operands that can be None are {[s.sh(x, 20) for x in xs]}"
+    if not (b[0] == "call" and b[1] == ("name", "bool") and len(b[2]) == 1):
+        return f"the comparison result `{s.sh(b, 50)}` is not wrapped in bool(...): `&`/`|` on ints would yield ints under a bool dtype"
+    c = b[2][0]
+    if not (c[0] == "call" and c[1] == op and len(c[2]) == 2 and not c[3]):
+        return f"the element operation is `{s.sh(c, 50)}`, not {op[1]}(x, y)"
+    a0, a1 = c[2]
+    if not date_kernel:
+        want = xs if len(xs) == 2 else None
+        if want is not None:
+            if [a0, a1] != want:
+                return f"operands are passed as {op[1]}({s.sh(a0, 20)}, {s.sh(a1, 20)}), expected the elements in written operand order"
+        elif a0 != xs[0] or a1 not in other_terms:
+            return f"operands are passed as {op[1]}({s.sh(a0, 20)}, {s.sh(a1, 20)}), expected {op[1]}(x, other) (written operand order)"
+        return None
+    mine = xs[0]
+    theirs = [second] if second is not None else list(other_terms)
+    s0, s1 = list(subterms(a0)), list(subterms(a1))
+    if mine not in s0 or any(t in s0 for t in theirs):
+        return f"the left operand `{s.sh(a0, 40)}` is not derived from self's element"
+    if not any(t in s1 for t in theirs) or mine in s1:
+        return f"the right operand `{s.sh(a1, 40)}` is not derived from the other operand"
     return None
 
 
